@@ -1,9 +1,13 @@
 (* C10 - the parameters the source text fixes right now (regenerated coq/Facts/Facts_c10.v).
    The theorems hold for every value of them; vmodel runs the model with these. *)
-From Icv Require Import Base.Tac Auth.AuModel Facts.Facts_c10.
+From Icv Require Import Base.Tac Auth.AuModel Auth.AuConc Facts.Facts_c10.
 Local Open Scope Z_scope.
 
 Definition au_params_now : au_params :=
   {| au_p_signed := true;     (* x86-64 SysV ABI: plain char is signed; checked by the SDBM comparison on bytes >= 0x80 *)
      au_p_window := match f_au_window with Some w => w | None => 30 end;
      au_p_strict := match f_au_strict with Some s => s | None => true end |}.
+
+(* ConfigObject::SetAuthority as the source has it now: `paused' is tested under the ObjectLock unless the
+   translator positively recognised that it is only looked at before the lock is taken. *)
+Definition au_recheck_now : bool := match f_au_paused_test_under_lock with Some false => false | _ => true end.
